@@ -1,8 +1,9 @@
 //! C01 – single-bar redraw integrity.  Correspondence with model/Sys.v (exact TermLike call
 //! traces + getters, hashed per op) and a direct oracle on the harness reference terminal `Vt`
-//! (validated against the vt100 crate by the TermCases below and by bin termcheck):
+//! (validated against the vt100 crate by the TermCases below; bin termcheck is a stand-alone tool, not run by ./check):
 //! after every painted draw   screen = wrap(log) ++ wrap(frame),   and at the end ordinary output
 //! starts on a fresh line below the frame.
+use indicatif::verif_clock as vc;
 use verif_harness::spy::TOp;
 use verif_harness::sysrun::*;
 use verif_harness::*;
@@ -155,14 +156,13 @@ fn oracle(case: &Case, obs: &[StepObs]) -> (u64, Option<(String, String)>) {
         match op {
             Op::SetStyle(_, t) => tmpl = t.clone(),
             Op::Println(_, m) => {
-                let painted = o.emitted.iter().any(|x| *x == TOp::Flush);
-                if painted {
-                    let ls: Vec<&str> = m.lines().collect();
-                    if ls.is_empty() {
-                        log.push(String::new())
-                    } else {
-                        log.extend(ls.iter().map(|s| s.to_string()))
-                    }
+                // logged BY CALL (the targets of this bin are never hidden, println is a forced draw): a
+                // println that the code dropped silently must fail "exactly the lines printed so far"
+                let ls: Vec<&str> = m.lines().collect();
+                if ls.is_empty() {
+                    log.push(String::new())
+                } else {
+                    log.extend(ls.iter().map(|s| s.to_string()))
                 }
             }
             Op::Suspend(_, ws) => log.extend(ws.iter().cloned()),
@@ -332,6 +332,165 @@ fn classify(_log: &[String], frame: &[String], _got: &[String], _want: &[String]
     }
 }
 
+// ------------------------------------------------------------------ concurrent suspend story (oracle-only)
+/// Why the sequential model may read `suspend` as ONE step (Coq: C01_calls_are_one_bar_section,
+/// C01_suspend_closure_inside_bar_section): a second thread holding a clone calls set_message / inc
+/// WHILE the closure runs.  The closure tells it to go, waits up to 50 ms for its completion, then
+/// prints its line.  On a tree that keeps the bar locked around the closure the other thread blocks
+/// until suspend has returned (the wait times out), so the outcome is deterministic:
+/// final screen = [closure line] ++ frame(final state), nothing else.  A tree that releases the lock
+/// lets the other thread paint a frame in the middle of the closure's output.
+fn suspend_story(s: &mut Session) {
+    use std::sync::mpsc;
+    use std::time::Duration;
+    let variants: [(u16, Vec<TPart>, &str, &str); 6] = [
+        (20, vec![TPart::Msg], "working", "changed"),
+        (10, vec![TPart::Msg, TPart::NewLine, TPart::Pos, TPart::Lit("/".into()), TPart::Len], "working", "changed"),
+        (5, vec![TPart::Msg], "ab", "abcdefgh"),
+        (5, vec![TPart::Msg, TPart::NewLine, TPart::Pos], "abcdefgh", "xy"),
+        (8, vec![TPart::Lit("[".into()), TPart::Pos, TPart::Lit("] ".into()), TPart::Msg], "12345", "1234"),
+        (12, vec![TPart::Prefix, TPart::NewLine, TPart::Msg], "", "now two"),
+    ];
+    for (k, (w, tmpl, m0, m1)) in variants.iter().enumerate() {
+        let (w, h) = (*w, 24u16);
+        let desc = format!(
+            "CONCURRENT-SUSPEND W={w} H={h} template={:?}: set_message({m0:?}); suspend(closure: other thread set_message({m1:?}); inc(1) meanwhile; wait <= 50 ms; write_line(\"closure line\")); join",
+            tmpl_string(tmpl)
+        );
+        let spy = verif_harness::spy::Spy::new(w, h);
+        vc::set_auto_step_ns(0);
+        vc::set_clock_ns(vc::ORIGIN_NS + (k as u64 + 1) * 1_000_000_000);
+        let pb = indicatif::ProgressBar::with_draw_target(
+            Some(7),
+            indicatif::ProgressDrawTarget::term_like(Box::new(spy.clone())),
+        );
+        pb.set_style(style_of(tmpl));
+        pb.set_message(m0.to_string());
+        vc::advance_clock_ns(1_000_000_000);
+        let (go_tx, go_rx) = mpsc::channel::<()>();
+        let (done_tx, done_rx) = mpsc::channel::<()>();
+        let other = {
+            let pb2 = pb.clone();
+            let m1 = m1.to_string();
+            std::thread::spawn(move || {
+                let _ = go_rx.recv();
+                pb2.set_message(m1);
+                pb2.inc(1);
+                let _ = done_tx.send(());
+            })
+        };
+        let spy2 = spy.clone();
+        let overlapped = pb.suspend(move || {
+            let _ = go_tx.send(());
+            let overlapped = done_rx.recv_timeout(Duration::from_millis(50)).is_ok();
+            let _ = indicatif::TermLike::write_line(&spy2, "closure line");
+            overlapped
+        });
+        let joined = other.join().is_ok();
+        let g = Getters {
+            pos: pb.position(),
+            len: pb.length(),
+            finished: pb.is_finished(),
+            msg: pb.message(),
+            prefix: pb.prefix(),
+        };
+        let ops = spy.take();
+        let mut vt = Vt::new(w, h);
+        vt.feed(&ops);
+        let mut want: Vec<String> = wrap_rows("closure line", w as usize);
+        for l in render_expected(tmpl, &g) {
+            want.extend(wrap_rows(&l, w as usize));
+        }
+        let got = vt.rows();
+        s.count("concurrent_suspend_story");
+        s.count(&format!("concurrent_suspend_story:other-thread-ran-during-closure:{overlapped}"));
+        s.oracle_only(desc.clone(), true);
+        if !joined || g.msg != *m1 || g.pos != 1 {
+            s.fail(
+                "concurrent-suspend-lost-update",
+                format!("other thread joined={joined}; final message {:?} position {} (expected {m1:?}, 1)", g.msg, g.pos),
+                desc.clone(),
+            );
+        } else if !rows_match(&got, &want) {
+            s.fail(
+                "suspend-closure-output-interleaved-with-concurrent-draw",
+                format!(
+                    "final screen rows {:?} but closure line + final frame is {:?} (other thread ran during the closure: {overlapped}); TermLike calls {:?}",
+                    got, want, ops
+                ),
+                desc,
+            );
+        }
+    }
+}
+
+// ------------------------------------------------------------------ one failed terminal call the code recovers from
+/// C01 excludes I/O failures (C18 treats them), except for the two situations in which the unchanged
+/// code demonstrably recovers, because `last_line_count` still describes the screen after the lost draw:
+///   (a) the `flush()` that ends a draw fails and the new frame is as tall as the old one;
+///   (b) the very first terminal call of a draw fails (nothing was touched).
+/// After the next painted draw the screen must again be log ++ frame (no remnant), also after a println and
+/// after finish_and_clear.  The fault position is computed from a fault-free run of the same history.
+fn failed_call_story(s: &mut Session) -> u64 {
+    let mut checked = 0;
+    let tmpls: [Vec<TPart>; 3] = [
+        vec![TPart::Lit("[".into()), TPart::Msg, TPart::Lit("] ".into()), TPart::Pos, TPart::Lit("/".into()), TPart::Len],
+        vec![TPart::Lit("job".into()), TPart::NewLine, TPart::Msg, TPart::Lit(" ".into()), TPart::Pos],
+        vec![TPart::Prefix, TPart::Lit("a".into()), TPart::NewLine, TPart::Msg, TPart::NewLine, TPart::Pos, TPart::Lit("/".into()), TPart::Len],
+    ];
+    for (ti, tmpl) in tmpls.iter().enumerate() {
+        for &w in &[40u16, 6, 3] {
+            for first_call in [false, true] {
+                for tail in 0..2 {
+                    let mut ops = vec![Op::Println(0, "starting".into()), Op::SetMsg(0, "step 0".into()), Op::SetMsg(0, "step 1".into())];
+                    let faulty = ops.len() - 1;
+                    if tail == 0 {
+                        ops.extend([Op::SetMsg(0, "step 2".into()), Op::Println(0, "a log line".into()), Op::Finish(0, Fin::AndClear)]);
+                    } else {
+                        ops.extend([Op::Finish(0, Fin::AndClear), Op::Println(0, "after".into())]);
+                    }
+                    let mut case = Case {
+                        w,
+                        h: 30,
+                        fail_at: vec![],
+                        fail_from: None,
+                        mp: TInit::Hidden,
+                        bars: vec![BarInit { len: Some(10), fin: Fin::AndLeave, tmpl: tmpl.clone(), target: TInit::Term(None) }],
+                        ops: ops.into_iter().enumerate().map(|(j, o)| ((j as u64 + 1) * 1_000_000_000, o)).collect(),
+                    };
+                    let clean = run_case(&case);
+                    let before: usize = clean[..faulty].iter().map(|o| o.emitted.len()).sum();
+                    let e = &clean[faulty].emitted;
+                    if e.last() != Some(&TOp::Flush) {
+                        s.fail("failed-call-story-malformed", format!("draw of op #{faulty} does not end with flush: {e:?}"), describe(&case));
+                        continue;
+                    }
+                    let idx = if first_call { before } else { before + e.len() - 1 };
+                    case.fail_at = vec![idx as u64];
+                    let obs = run_case(&case);
+                    let desc = format!("FAILED-{} template#{ti} {}", if first_call { "FIRST-CALL" } else { "FLUSH" }, describe(&case));
+                    s.count(&format!("failed_call_story:{}", if first_call { "first-call" } else { "flush-same-height" }));
+                    let injected = obs[faulty].emitted.len() + 1 == e.len() || (first_call && obs[faulty].emitted.is_empty());
+                    let (c, bad) = oracle(&case, &obs);
+                    checked += c;
+                    s.oracle_only(desc.clone(), true);
+                    if !injected {
+                        s.fail("failed-call-story-malformed", format!("the fault was not injected into op #{faulty}: {:?}", obs[faulty].emitted), desc);
+                    } else if let Some((class, detail)) = bad {
+                        let class = if class == "screen-mismatch" || class == "cursor-not-on-fresh-line" {
+                            "stale-frame-after-recoverable-failed-call".to_string()
+                        } else {
+                            class
+                        };
+                        s.fail(&class, detail, desc);
+                    }
+                }
+            }
+        }
+    }
+    checked
+}
+
 // ------------------------------------------------------------------ tie of coq/model/Term.v to the vt100 crate
 const C01_HEADER: &str = "From IndModel Require Import TermCheck.\nFrom Coq Require Import String.\nOpen Scope string_scope.\nOpen Scope N_scope.\n";
 
@@ -411,7 +570,7 @@ fn main() {
     let a = args();
     let mut s = Session::new(&a, "C01", C01_HEADER, "c01case", "c01_check");
     s.shard_size = 120;
-    s.rule = "(1) single bar on a recording terminal (term_like, sometimes with a refresh limiter), template from the family {literal,msg,prefix,pos,len,spinner,newline}, 1..60 timed ops over tick/inc/dec/set_position/set_message/set_prefix/set_style/set_length/inc|dec|unset_length/println/suspend/reset*/finish*/abandon*/finish_using_style/force_draw/set_tab_width(/drop), texts with widths clustered at multiples of the terminal width, multi-line and empty; W in {1,2,3,4,5,7,10,20,80}; non-trivial = at least 3 ops and at least one painted draw; distinct = distinct case text. (2) TermCase: the TermLike call stream observed in every third history, and random call streams (W 1..12, H 1..8: up/down/clear_line/write_line/write_str/flush), executed by coq/model/Term.v and compared with the visible rows + cursor of the vt100 crate and with all rows (scroll-back) of the harness reference terminal".into();
+    s.rule = "(1) single bar on a recording terminal (term_like, sometimes with a refresh limiter), template from the family {literal,msg,prefix,pos,len,spinner,newline}, 1..60 timed ops over tick/inc/dec/set_position/set_message/set_prefix/set_style/set_length/inc|dec|unset_length/println/suspend/reset*/finish*/abandon*/finish_using_style/force_draw/set_tab_width(/drop), texts with widths clustered at multiples of the terminal width, multi-line and empty; W in {1,2,3,4,5,7,10,20,80}; non-trivial = at least 3 ops and at least one painted draw; distinct = distinct case text. H in {4,6,10,24,60,200}; every SysCase carries the oracle's verdict and the shard cross-checks it with hist_okb/fitsb evaluated on the case. (2) TermCase: the TermLike call stream observed in every third history, and random call streams (W 1..12, H 1..8: up/down/clear_line/write_line/write_str/flush), executed by coq/model/Term.v and compared with the visible rows + cursor of the vt100 crate and with all rows (scroll-back) of the harness reference terminal. (3) oracle-only: wide-text stream on the vt100 crate; 6 two-thread suspend stories (a clone is updated while the closure runs); 36 histories with one recoverable failed terminal call (failed flush at unchanged frame height / failed first call)".into();
     let mut r = Rng::new(a.seed);
     let mut cases: Vec<Case> = corpus();
     let n = if a.thorough { 6000 } else if a.extended { 3000 } else { 600 };
@@ -425,8 +584,15 @@ fn main() {
         let desc = describe(case);
         LEFT_FITS.with(|c| c.set(false));
         let (checked, bad) = oracle(case, &obs);
-        s.count(&format!("H:{}:{}", case.h, if LEFT_FITS.with(|c| c.get()) { "left-Fits" } else { "inside-Fits" }));
+        let left_fits = LEFT_FITS.with(|c| c.get());
+        s.count(&format!("H:{}:{}", case.h, if left_fits { "left-Fits" } else { "inside-Fits" }));
         checked_total += checked;
+        let verdict = match &bad {
+            None => 0,
+            Some((class, _)) if class == "empty-line-after-text-only-draw-swallowed" => 1,
+            Some(_) => 2,
+        };
+        s.count(&format!("oracle-verdict:{}", ["pass", "D28", "other"][verdict]));
         if let Some((class, detail)) = bad {
             s.fail(&class, detail, desc.clone());
         }
@@ -440,7 +606,13 @@ fn main() {
         s.count_n("painted_draws", painted as u64);
         s.count_n("skipped_draw_ops", obs.iter().filter(|o| o.emitted.is_empty()).count() as u64);
         let nontrivial = case.ops.len() >= 3 && painted >= 1;
-        s.case(format!("(SysCase {})", coq_case(case, &obs)), desc.clone(), nontrivial);
+        // the oracle's verdict travels with the case: the shard evaluates hist_okb / fitsb (the hypotheses of
+        // C01_screen_partial) on the same history and cross-checks them with it (TermCheck.c01_spec_check)
+        s.case(
+            format!("(SysCase {} {} {})", coq_case(case, &obs), verdict, cbool(left_fits)),
+            desc.clone(),
+            nontrivial,
+        );
         // the observed call stream of every third history also ties Term.v to the vt100 crate
         term_seq += 1;
         if term_seq % 3 == 0 && obs.iter().all(|o| o.panic.is_none()) {
@@ -465,6 +637,8 @@ fn main() {
     }
     // oracle-only: double-width texts on even widths, judged on the vt100 crate (class 'wide-text-rows-miscounted')
     verif_harness::sysoracle::wide_text_stream(&mut s, &mut r, if a.thorough { 1000 } else { 120 });
+    suspend_story(&mut s);
+    checked_total += failed_call_story(&mut s);
     s.count_n("oracle_screen_checks", checked_total);
     s.finish();
 }
